@@ -32,7 +32,7 @@ def unambiguous (ti : TypeInfo) : Bool :=
   -- an optional positional field is filled by *count* (surplus fragments go to optional fields left to
   -- right); groups and optional params also change the count, so they cannot coexist with it
   (!(ti.fields.any fun f => isPositional f && f.opts.omitEmpty) ||
-    ti.fields.all (fun f => !f.opts.group && !(f.opts.param ≠ [] && f.opts.omitEmpty) && !f.opts.inline)) &&
+    ti.fields.all (fun f => !f.opts.group && !(f.opts.param ≠ [] && f.opts.omitEmpty))) &&
   inlineOk ti.fields &&
   -- text codecs recognised by the translator only
   (ti.hashPrefix.toList ++ ti.fields).all (fun f =>
